@@ -646,6 +646,14 @@ func checkC13(env *engine.Env, ci any) engine.Outcome {
 			ov[f] = map[string]any{"depends": []any{"only-" + f}}
 		}
 		doc["overrides"] = ov
+		// entries addressed to the OTHER packagers, their sources absent on this host: none of this format's business
+		var foreign []any
+		for _, f := range Formats {
+			if f != c.Key {
+				foreign = append(foreign, map[string]any{"src": filepath.Join(work, "only-on-the-"+f+"-build-host.conf"), "dst": "/etc/for-" + f + ".conf", "packager": f})
+			}
+		}
+		doc["contents"] = foreign
 		text := fixture.Doc(doc).YAML()
 		os.WriteFile(filepath.Join(work, "nfpm.yaml"), []byte(text), 0o644)
 		f := c.Key
